@@ -2049,7 +2049,7 @@ class HDKey(Key):
                 prefix = self.network.wif_prefix(witness_type=witness_type, multisig=multisig)
             typebyte = b''
             if not is_private:
-                rkey = self.public_byte
+                rkey = self.public_compressed_byte
         if child_index:
             self.child_index = child_index
         raw = prefix + self.depth.to_bytes(1, 'big') + self.parent_fingerprint + \
